@@ -88,6 +88,16 @@ DESC = {
  'C13-d': ("Component.get_cooling_heat returns 0.0 when numpy.isclose(t0, t1) (default rtol 1e-5)", "two temperatures a few mK apart: additivity with one very short sub-interval, derivative at the start of the interval"),
  'C15-d': ("Composition.p gets a converter that snaps fractions within 1e-9 of 0 or 1 to exactly 0 / 1", "fractions within 1e-9 of an end point, on either side of the bound"),
  'C17-d': ("ProcessModel.save writes feed_temperature as a constant column taken from step 0", "a model whose feed temperature varies (non-isothermal models), saved and re-loaded"),
+ 'C01-e': ("ideal_non_isothermal_process keeps feed temperature and mass in preallocated numpy arrays (numpy.full / full_like: dtype taken from the fill value)", "an integer-valued initial feed temperature (333 instead of 333.0): the mass series is truncated to whole kilograms"),
+ 'C02-e': ("calculate_partial_fluxes: the exit tolerance of the fixed-point loop is floored at 1e-6 (max(precision, 1e-6))", "a requested precision below 1e-6 with a slowly converging permeate side"),
+ 'C03-e': ("non_ideal_non_isothermal_process: per-kg heat capacities renamed to names that the condensation-heat branch overwrites with get_cooling_heat values", "self-cooling (no programme) + a permeate temperature"),
+ 'C05-e': ("non_ideal_non_isothermal_process: facilitation rates computed from the RAW user-supplied initial permeance value instead of the unit-converted one", "initial permeances given in SI or GPU units"),
+ 'C07-e': ("DiffusionCurve.get_separation_factor converts the feed points only when the FIRST point is a mole fraction", "a curve whose first point is a mass fraction and a later point a mole fraction (per-point basis)"),
+ 'C11-e': ("ideal_non_isothermal_process: self-cooling divides by a 'mean hold-up' mass that contains flux x area without the step length", "the area/time trade-off (area x k, step / k) of a self-cooling run"),
+ 'C12-e': ("Membrane.get_permeance: unstated activation energy -> evaluates the fitted Arrhenius line exp(lnP0 - Ea/(R T)) instead of rescaling the nearest experiment", ">= 3 unstated experiments that do not lie on one Arrhenius line, query between them"),
+ 'C16-e': ("fit_vle skips a method whose optimiser run reports success=False once any result is held", "method=None and a data set on which the most accurate method reports success=False (COBYLA on MeOH/Toluene)"),
+ 'C19-e': ("Membrane.calculate_activation_energy tests the TOTAL number of experiments of the membrane instead of the component's", "a component with one unstated experiment in a membrane that also holds experiments of another component"),
+ 'C20-e': ("Measurements.data gets the mutable default [] (shared by all default-constructed instances) and fit() appends its zero points to such an instance", "a fit with include_zero=True followed by any other fit in the same interpreter"),
 }
 
 
